@@ -10,7 +10,7 @@ import (
 func init() {
 	register(&Prop{
 		ID: "C10",
-		Decided: "(1) the session key encoder is injective and NULL-distinct (keyenc); (2) end = last activity + timeout wherever lastActive is stored, a new session is [ts, ts+timeout); (3) a session is marked expired only under time >= its end, the late policy of Add discards only late rows, allowance entries expire only at end+AllowedLateness; (4) gap split: on the branch of Add where a session for the key already exists, the append to that session is unreachable when ts > that session's end (otherwise the split depends on the expiry goroutine's schedule); (5) sessionMap/triggeredSessions/callback are accessed only under sw.mu.",
+		Decided: "(1) the session key encoder is injective and NULL-distinct (keyenc); (2) end = last activity + timeout wherever lastActive is stored, a new session is [ts, ts+timeout), and the last activity of an open session only moves forward (an accepted out-of-order event does not rewind it, so last+timeout never falls behind the end); (3) a session is marked expired only under time >= its end, the late policy of Add discards only late rows, allowance entries expire only at end+AllowedLateness; (4) gap split: on the branch of Add where a session for the key already exists, the append to that session is unreachable when ts > that session's end (otherwise the split depends on the expiry goroutine's schedule); (5) sessionMap/triggeredSessions/callback are accessed only under sw.mu.",
 		NotDecided: "that each event is in exactly one reported session under all schedules; window_start as the earliest accepted timestamp under out-of-order input; aggregate values.",
 		Run: runC10,
 	})
@@ -53,6 +53,21 @@ func runC10(a *A) {
 		}
 		if n == 0 {
 			a.Und(fname(add)+"#end=last+timeout", add.Pos(), "no store to session.lastActive in Add")
+		}
+	})
+	a.Rule("ordtab/last-activity-monotone", 1, func() {
+		add := a.Method("window", "SessionWindow", "Add")
+		la := a.FieldOf(a.Named("window", "session"), "lastActive")
+		n := 0
+		for _, st := range storesToField(add, la) {
+			if isFreshObject(st.Addr.(*ssa.FieldAddr)) {
+				continue // a session created in this call
+			}
+			n++
+			a.storeOnlyIfGreater(add, st, la, false)
+		}
+		if n == 0 {
+			a.Und(fname(add)+"#store-lastActive", add.Pos(), "no update of an existing session's lastActive found")
 		}
 	})
 	a.Rule("ordtab/expiry-guard", 1, func() { a.ruleSessionExpiry() })
